@@ -1,6 +1,6 @@
 """C01 - the checksum-database client never returns or caches unauthenticated data."""
 import sumdbmc
-from vcore import finish, replay_one, record_and_monitor
+from vcore import finish, replay_one, replay_run, record_and_monitor
 
 RULE = ("E1: SumdbClient - the client as a state machine (Lookup, record cache, ReadCache/ReadRemote, ParseRecord, mergeLatest with the "
         "configuration compare-and-swap loop, checkRecord, per-tile fetch/authenticate/save) against an adversary that corrupts up to "
@@ -23,8 +23,8 @@ def run(ctx):
     record_and_monitor(ctx, "clientc01", "SumdbMonitor", "SumdbMonitor", 200 if ctx.quick() else 3000, "C01", shards=12)
     ctx.assumptions += ["hashes as free terms; signatures as facts (Ed25519 unforgeability); the world is built by harness/internal/sumworld",
                         "at most 1-3 corrupted responses per behaviour in the exhaustive part; E3 lifts the bound with random placements"]
-    return finish(ctx, replay_fn=replay_one, rule=RULE)
+    return finish(ctx, replay_fn=replay_run, rule=RULE)
 
 
 def replay(ctx, path, verbose=False):
-    return replay_one(ctx, path, verbose)
+    return replay_run(ctx, path, verbose)
